@@ -486,4 +486,464 @@ theorem mqtt_inflight_lags_counterexample : ¬ mqtt_inflight_exact_full := by
   revert this
   decide
 
+
+/-! ## the exposition of one source (C15 "the Prometheus text parses"; C19 label values) -/
+
+open Rotonda.ConnMetrics (C19prom_escaped_roundtrip C15prom_unique_iff C15prom_unique_repaired)
+
+/-- Text metrics write nothing (`supports_type`): only the live calls matter for the text. -/
+theorem linesOfV_live (g : Bool) (cs : List Call) : linesOfV g (liveCalls cs) = linesOfV g cs := by
+  cases g with
+  | true => simp [linesOfV, groupLines, liveCalls, List.filter_filter]
+  | false =>
+    simp only [linesOfV, linesOf, liveCalls]
+    induction cs with
+    | nil => rfl
+    | cons c cs ih =>
+      by_cases h : c.metric.mtype = .text
+      · simp [h, callLines, ih]
+      · have : (c.metric.mtype != .text) = true := by simpa using h
+        simp [this, ih]
+
+/-- **Round trip of any source's text** (repaired escaping, either grouping): if the calls the format supports are
+    well-formed (metric and label *names*, help texts, printed numbers — programmer constants), the text parses and
+    every label value — unit name, topic, router id, whatever characters it contains — reads back as supplied. -/
+theorem text_roundtrip_live (g : Bool) (cs : List Call) (h : (liveCalls cs).all Call.wf = true) :
+    parse (renderV true g cs) = some (linesOfV g cs) := by
+  have := C19prom_escaped_roundtrip g (liveCalls cs) h
+  simpa [renderV, linesOfV_live] using this
+
+/-- Every call of the mqtt source is well-formed, for **every** unit name and **every** topic text. -/
+theorem mqtt_calls_wf (unit : Str) (r : MqttRec) : (mqttCalls unit r).all Call.wf = true := by
+  simp only [mqttCalls, List.all_append, List.all_cons, List.all_nil, List.all_map, Bool.and_true, Bool.and_eq_true]
+  refine ⟨⟨?_, ?_, ?_, ?_, ?_⟩, ?_⟩
+  · exact simple_wf mEstablished unit _ mEstablished_ok (by cases r.up <;> decide)
+  · exact simple_wf mLost unit _ mLost_ok (digits_isNumber _)
+  · exact simple_wf mConnErr unit _ mConnErr_ok (digits_isNumber _)
+  · exact simple_wf mInflight unit _ mInflight_ok (digits_isNumber _)
+  · exact simple_wf mPubErr unit _ mPubErr_ok (digits_isNumber _)
+  · rw [List.all_eq_true]
+    intro p _
+    exact labelled_wf mPublish unit topicLabel _ _ mPublish_ok topicLabel_ok (digits_isNumber _)
+
+/-- **C19 / C15 for the mqtt target**: for every unit name, every record and every topic text (quotes, backslashes,
+    newlines, forged labels included) the exposition parses and reads back exactly the lines asked for. -/
+theorem mqtt_text_roundtrip (g : Bool) (unit : Str) (r : MqttRec) :
+    parse (renderV true g (mqttCalls unit r)) = some (linesOfV g (mqttCalls unit r)) :=
+  C19prom_escaped_roundtrip g _ (mqtt_calls_wf unit r)
+
+example : (mqttCalls ['x', '"', ',', 'e', '=', '"', '1'] ⟨true, 1, 2, 3, 4, [(['n', '\n', 't'], 5), (['q', '"', '\\'], 6)]⟩).length = 7 := by
+  decide
+
+def isSample : Line → Bool | .sample .. => true | _ => false
+
+theorem linesOf_mqtt (unit : Str) (r : MqttRec) :
+    linesOf (mqttCalls unit r) =
+      callLines (simple mEstablished unit (if r.up then ['1'] else ['0'])) ++ callLines (simple mLost unit (digits r.lost)) ++
+      callLines (simple mConnErr unit (digits r.errs)) ++ callLines (simple mInflight unit (digits r.inflight)) ++
+      callLines (simple mPubErr unit (digits r.pubErrs)) ++
+      (r.topics.flatMap (fun p => callLines (labelled mPublish unit topicLabel p.1 (digits p.2)))) := by
+  simp [linesOf, mqttCalls, List.flatMap_append, List.flatMap_map]
+
+/-- **Each exported value is the record's field**, under the component label, and each topic's count under its topic
+    label; there are no other samples. -/
+theorem mqtt_text_values (unit : Str) (r : MqttRec) :
+    Line.sample (fullName mEstablished none) (some [(componentLabel, unit)]) (if r.up then ['1'] else ['0'])
+        ∈ linesOf (mqttCalls unit r) ∧
+    Line.sample (fullName mLost none) (some [(componentLabel, unit)]) (digits r.lost) ∈ linesOf (mqttCalls unit r) ∧
+    Line.sample (fullName mConnErr none) (some [(componentLabel, unit)]) (digits r.errs) ∈ linesOf (mqttCalls unit r) ∧
+    Line.sample (fullName mInflight none) (some [(componentLabel, unit)]) (digits r.inflight) ∈ linesOf (mqttCalls unit r) ∧
+    Line.sample (fullName mPubErr none) (some [(componentLabel, unit)]) (digits r.pubErrs) ∈ linesOf (mqttCalls unit r) ∧
+    (∀ p ∈ r.topics, Line.sample (fullName mPublish none) (some [(componentLabel, unit), (topicLabel, p.1)])
+        (digits p.2) ∈ linesOf (mqttCalls unit r)) ∧
+    ((linesOf (mqttCalls unit r)).filter isSample).length = 5 + r.topics.length := by
+  rw [linesOf_mqtt, callLines_simple _ _ _ (ok_live mEstablished_ok), callLines_simple _ _ _ (ok_live mLost_ok),
+    callLines_simple _ _ _ (ok_live mConnErr_ok), callLines_simple _ _ _ (ok_live mInflight_ok),
+    callLines_simple _ _ _ (ok_live mPubErr_ok)]
+  refine ⟨by simp, by simp, by simp, by simp, by simp, ?_, ?_⟩
+  · intro p hp
+    simp only [List.mem_append, List.mem_flatMap]
+    right
+    exact ⟨p, hp, by rw [callLines_labelled _ _ _ _ _ (ok_live mPublish_ok)]; simp⟩
+  · have h5 : ∀ (l : List (Str × Nat)),
+        ((l.flatMap (fun p => callLines (labelled mPublish unit topicLabel p.1 (digits p.2)))).filter isSample).length
+          = l.length := by
+      intro l
+      induction l with
+      | nil => rfl
+      | cons p l ih =>
+        simp only [List.flatMap_cons, List.filter_append, List.length_append, List.length_cons]
+        rw [ih, callLines_labelled _ _ _ _ _ (ok_live mPublish_ok)]
+        simp [List.filter_cons, isSample]; omega
+    simp only [List.filter_append, List.length_append, h5]
+    simp [List.filter_cons, isSample]
+
+/-- **The header rule for the mqtt source, code as written**: at most one `# HELP` / `# TYPE` per metric name holds
+    exactly while at most one topic has been published to (one `Target::append` per topic — the listed finding
+    `prometheus:duplicate-help-type-lines`); with the repaired `Target` it holds always. -/
+theorem mqtt_text_unique_iff (unit : Str) (r : MqttRec) :
+    (UniqueMeta (linesOf (mqttCalls unit r)) ↔ r.topics.length ≤ 1) ∧ UniqueMeta (groupLines (mqttCalls unit r)) := by
+  refine ⟨?_, C15prom_unique_repaired _⟩
+  rw [C15prom_unique_iff]
+  have live : liveCalls (mqttCalls unit r) = mqttCalls unit r := by
+    simp only [mqttCalls, List.cons_append, List.nil_append]
+    rw [live_simple _ _ _ _ (ok_live mEstablished_ok), live_simple _ _ _ _ (ok_live mLost_ok),
+      live_simple _ _ _ _ (ok_live mConnErr_ok), live_simple _ _ _ _ (ok_live mInflight_ok),
+      live_simple _ _ _ _ (ok_live mPubErr_ok),
+      live_labelled_map mPublish unit topicLabel (fun p => p.1) (fun p => digits p.2) r.topics (ok_live mPublish_ok)]
+  rw [live]
+  have names : (mqttCalls unit r).map headName =
+      [fullName mEstablished none, fullName mLost none, fullName mConnErr none, fullName mInflight none,
+        fullName mPubErr none] ++ List.replicate r.topics.length (fullName mPublish none) := by
+    simp only [mqttCalls, List.map_append, List.map_map, List.map_cons, List.map_nil, headName_simple]
+    congr 1
+    induction r.topics with
+    | nil => rfl
+    | cons p l ih => simp only [List.map_cons, List.length_cons, List.replicate_succ, ih, Function.comp, headName_labelled]
+  rw [names]
+  have nd := mqtt_names_nodup
+  match h : r.topics.length with
+  | 0 =>
+    simp only [List.replicate_zero, List.append_nil, Nat.zero_le, iff_true]
+    have : [fullName mEstablished none, fullName mLost none, fullName mConnErr none, fullName mInflight none,
+      fullName mPubErr none, fullName mPublish none] = [fullName mEstablished none, fullName mLost none,
+      fullName mConnErr none, fullName mInflight none, fullName mPubErr none] ++ [fullName mPublish none] := rfl
+    rw [this] at nd
+    exact (List.nodup_append.mp nd).1
+  | 1 =>
+    simp only [List.replicate_one, Nat.le_refl, iff_true]
+    exact nd
+  | n + 2 =>
+    simp only [List.replicate_succ]
+    constructor
+    · intro hn
+      have := (List.nodup_append.mp hn).2.1
+      simp at this
+    · intro hle; omega
+
+example : ¬ UniqueMeta (linesOf (mqttCalls ['u'] ⟨true, 0, 0, 0, 0, [(['a'], 1), (['b'], 1)]⟩)) := by
+  rw [(mqtt_text_unique_iff _ _).1]; decide
+
+/-! ## filter unit -/
+
+/-- **Exact accounting**: the unit-wide counter is the number of `message_filtered` calls, each ingress's counter
+    the number of calls for that ingress. -/
+theorem filter_exact (r : FilterRec) (h : List Nat) (i : Nat) :
+    (r.applyAll h).total = r.total + h.length ∧
+    routerCount i (r.applyAll h).routers = routerCount i r.routers + h.count i := by
+  induction h generalizing r with
+  | nil => simp [FilterRec.applyAll]
+  | cons j h ih =>
+    have e : r.applyAll (j :: h) = (r.filtered j).applyAll h := rfl
+    rw [e]
+    obtain ⟨a, b⟩ := ih (r.filtered j)
+    rw [a, b]
+    by_cases hj : j = i
+    · subst hj; simp [FilterRec.filtered, routerCount_bump_same]; omega
+    · have : (j == i) = false := by simp [hj]
+      simp [FilterRec.filtered, routerCount_bump_other i j hj, List.count_cons, this]; omega
+
+example : routerCount 3 (FilterRec.zero.applyAll [3, 7, 3]).routers = 2 := by decide
+
+/-- **The per-ingress counters sum to the total.** -/
+theorem filter_total_is_sum (r : FilterRec) (h : List Nat) (hr : (r.routers.map (·.2)).sum = r.total) :
+    ((r.applyAll h).routers.map (·.2)).sum = (r.applyAll h).total := by
+  induction h generalizing r with
+  | nil => simpa [FilterRec.applyAll] using hr
+  | cons j h ih =>
+    have e : r.applyAll (j :: h) = (r.filtered j).applyAll h := rfl
+    rw [e]
+    apply ih
+    simp [FilterRec.filtered, sum_bumpRouter, hr]
+
+example : (FilterRec.zero.routers.map (·.2)).sum = FilterRec.zero.total := by decide
+
+/-- **Counters never decrease.** -/
+theorem filter_monotone (r : FilterRec) (h : List Nat) (i : Nat) :
+    r.total ≤ (r.applyAll h).total ∧ routerCount i r.routers ≤ routerCount i (r.applyAll h).routers := by
+  obtain ⟨a, b⟩ := filter_exact r h i
+  omega
+
+theorem gate_live (unit : Str) (g : GateRec) (ago : Str) :
+    liveCalls (gateCalls unit g ago) =
+      [simple mGateUpdates unit (digits g.updates), simple mGateDropped unit (digits g.dropped)] ++
+      (match g.updated with
+       | true => [simple mGateAgo unit ago, simple mGateSetSize unit (digits g.setSize)]
+       | false => [simple mGateAgo unit ['-', '1']]) := by
+  cases hg : g.updated <;> simp only [gateCalls, hg, List.cons_append, List.nil_append] <;>
+    rw [live_simple _ _ _ _ (ok_live mGateUpdates_ok), live_simple _ _ _ _ (ok_live mGateDropped_ok),
+      live_text _ _ _ _ mGateWhen_text, live_simple _ _ _ _ (ok_live mGateAgo_ok)]
+  · rfl
+  · rw [live_simple _ _ _ _ (ok_live mGateSetSize_ok)]; rfl
+
+theorem gate_live_wf (unit : Str) (g : GateRec) (ago : Str) (ha : isNumber ago = true) :
+    (liveCalls (gateCalls unit g ago)).all Call.wf = true := by
+  rw [gate_live]
+  cases g.updated <;>
+    simp only [List.cons_append, List.nil_append, List.all_cons, List.all_nil, Bool.and_true, Bool.and_eq_true]
+  · exact ⟨simple_wf _ _ _ mGateUpdates_ok (digits_isNumber _), simple_wf _ _ _ mGateDropped_ok (digits_isNumber _),
+      simple_wf _ _ _ mGateAgo_ok (by decide)⟩
+  · exact ⟨simple_wf _ _ _ mGateUpdates_ok (digits_isNumber _), simple_wf _ _ _ mGateDropped_ok (digits_isNumber _),
+      simple_wf _ _ _ mGateAgo_ok ha, simple_wf _ _ _ mGateSetSize_ok (digits_isNumber _)⟩
+
+/-- Every call of the filter unit's source that the format supports is well-formed, for every unit name. -/
+theorem filter_calls_wf (unit : Str) (g : GateRec) (ago : Str) (ha : isNumber ago = true) (r : FilterRec) :
+    (liveCalls (filterCalls unit g ago r)).all Call.wf = true := by
+  simp only [filterCalls, liveCalls_append, List.all_append, Bool.and_eq_true]
+  refine ⟨⟨gate_live_wf unit g ago ha, ?_⟩, ?_⟩
+  · rw [live_labelled_map mFiltered unit routerLabel (fun p => digits p.1) (fun p => digits p.2) r.routers
+      (ok_live mFiltered_ok), List.all_eq_true]
+    intro c hc
+    obtain ⟨p, _, rfl⟩ := List.mem_map.mp hc
+    exact labelled_wf _ _ _ _ _ mFiltered_ok routerLabel_ok (digits_isNumber _)
+  · rw [live_simple _ _ _ _ (ok_live mFiltered_ok)]
+    simp only [liveCalls, List.filter_nil, List.all_cons, List.all_nil, Bool.and_true]
+    exact simple_wf _ _ _ mFiltered_ok (digits_isNumber _)
+
+/-- **C15 / C19 for the filter unit**: its exposition parses and reads back, for every unit name and record. -/
+theorem filter_text_roundtrip (grp : Bool) (unit : Str) (g : GateRec) (ago : Str) (ha : isNumber ago = true)
+    (r : FilterRec) :
+    parse (renderV true grp (filterCalls unit g ago r)) = some (linesOfV grp (filterCalls unit g ago r)) :=
+  text_roundtrip_live grp _ (filter_calls_wf unit g ago ha r)
+
+example : isNumber ['0'] = true := by decide
+
+/-- **The header rule for the filter unit, code as written**: the total is appended under the same metric as the
+    per-ingress values, so as soon as one ingress has a counter the `# HELP` / `# TYPE` lines repeat (the listed
+    finding, in this source). -/
+theorem filter_text_not_unique (unit : Str) (g : GateRec) (ago : Str) (r : FilterRec) (h : r.routers ≠ []) :
+    ¬ UniqueMeta (linesOf (filterCalls unit g ago r)) ∧ UniqueMeta (groupLines (filterCalls unit g ago r)) := by
+  refine ⟨?_, C15prom_unique_repaired _⟩
+  rw [C15prom_unique_iff]
+  intro hn
+  simp only [filterCalls, liveCalls_append, List.map_append] at hn
+  rw [live_labelled_map mFiltered unit routerLabel (fun p => digits p.1) (fun p => digits p.2) r.routers
+    (ok_live mFiltered_ok), live_simple _ _ _ _ (ok_live mFiltered_ok)] at hn
+  obtain ⟨p, l, hp⟩ := List.exists_cons_of_ne_nil h
+  rw [hp] at hn
+  have := (List.nodup_append.mp hn).2.2
+  exact this (fullName mFiltered none) (by simp [headName_labelled]) (fullName mFiltered none)
+    (by simp [liveCalls, headName_simple]) rfl
+
+/-! ## the whole process: `metrics::Collection` -/
+
+theorem render_append (esc : Bool) (a b : List Call) : render esc (a ++ b) = render esc a ++ render esc b := by
+  simp [render, linesOf, List.flatMap_append]
+
+theorem render_flatMap (esc : Bool) (coll : List Source) :
+    render esc (coll.flatMap (fun s => s.calls s.name)) = coll.flatMap (fun s => render esc (s.calls s.name)) := by
+  induction coll with
+  | nil => rfl
+  | cons s coll ih => simp only [List.flatMap_cons, render_append, ih]
+
+def assembleCall (ms : Str) : Call := ⟨mAssemble, none, [⟨none, none, ms⟩]⟩
+
+/-- **The assembled text is the concatenation** of the sources' own texts, in the collection's order, followed by
+    the assemble-duration block (code as written: no regrouping across sources). -/
+theorem assemble_is_concatenation (esc : Bool) (coll : List Source) (ms : Str) :
+    render esc (assembleCalls coll ms)
+      = coll.flatMap (fun s => render esc (s.calls s.name)) ++ render esc [assembleCall ms] := by
+  simp only [assembleCalls, render_append, render_flatMap]; rfl
+
+theorem liveCalls_flatMap (coll : List Source) :
+    liveCalls (coll.flatMap (fun s => s.calls s.name)) = coll.flatMap (fun s => liveCalls (s.calls s.name)) := by
+  induction coll with
+  | nil => rfl
+  | cons s coll ih => simp only [List.flatMap_cons, liveCalls_append, ih]
+
+theorem assembleCall_live (ms : Str) : liveCalls [assembleCall ms] = [assembleCall ms] := by
+  have : (mAssemble.mtype != .text) = true := by simpa using ok_live mAssemble_ok
+  simp [liveCalls, List.filter_cons, assembleCall, this]
+
+theorem assembleCall_wf (ms : Str) (h : isNumber ms = true) : (assembleCall ms).wf = true := by
+  have hm := mAssemble_ok
+  simp only [Metric.ok, Bool.and_eq_true] at hm
+  simp [assembleCall, Call.wf, hm.1.1.1, hm.1.1.2, hm.1.2, h]
+
+/-- **The assembled text parses** whenever each source's supported calls are well-formed (so whenever each part
+    parses by `text_roundtrip_live`), for every set of sources, names and label values; either grouping. -/
+theorem assemble_parses (g : Bool) (coll : List Source) (ms : Str) (hms : isNumber ms = true)
+    (h : ∀ s ∈ coll, (liveCalls (s.calls s.name)).all Call.wf = true) :
+    parse (renderV true g (assembleCalls coll ms)) = some (linesOfV g (assembleCalls coll ms)) := by
+  apply text_roundtrip_live
+  have e : assembleCalls coll ms = coll.flatMap (fun s => s.calls s.name) ++ [assembleCall ms] := rfl
+  rw [e, liveCalls_append, liveCalls_flatMap, assembleCall_live]
+  simp only [List.all_append, Bool.and_eq_true, List.all_cons, List.all_nil, Bool.and_true]
+  refine ⟨?_, assembleCall_wf ms hms⟩
+  rw [List.all_eq_true]
+  intro c hc
+  obtain ⟨s, hs, hcs⟩ := List.mem_flatMap.mp hc
+  exact List.all_eq_true.mp (h s hs) c hcs
+
+def mqttSource (name : Str) (r : MqttRec) : Source := ⟨name, fun u => mqttCalls u r⟩
+def filterSource (name : Str) (g : GateRec) (ago : Str) (r : FilterRec) : Source := ⟨name, fun u => filterCalls u g ago r⟩
+
+theorem mqtt_live (unit : Str) (r : MqttRec) : liveCalls (mqttCalls unit r) = mqttCalls unit r := by
+  simp only [mqttCalls, List.cons_append, List.nil_append]
+  rw [live_simple _ _ _ _ (ok_live mEstablished_ok), live_simple _ _ _ _ (ok_live mLost_ok),
+    live_simple _ _ _ _ (ok_live mConnErr_ok), live_simple _ _ _ _ (ok_live mInflight_ok),
+    live_simple _ _ _ _ (ok_live mPubErr_ok),
+    live_labelled_map mPublish unit topicLabel (fun p => p.1) (fun p => digits p.2) r.topics (ok_live mPublish_ok)]
+
+/-- Any collection of mqtt targets and filter units (any names, states, order) satisfies the hypothesis of
+    `assemble_parses`. -/
+theorem sources_wf (name : Str) (r : MqttRec) (g : GateRec) (ago : Str) (ha : isNumber ago = true) (f : FilterRec) :
+    (liveCalls ((mqttSource name r).calls (mqttSource name r).name)).all Call.wf = true ∧
+    (liveCalls ((filterSource name g ago f).calls (filterSource name g ago f).name)).all Call.wf = true := by
+  refine ⟨?_, filter_calls_wf _ _ _ ha _⟩
+  simp only [mqttSource]
+  rw [mqtt_live]; exact mqtt_calls_wf _ _
+
+/-- **The header rule for a whole process, code as written**: unique exactly when no metric name is appended twice
+    across all sources. -/
+theorem assemble_unique_iff (coll : List Source) (ms : Str) :
+    UniqueMeta (linesOf (assembleCalls coll ms)) ↔ ((liveCalls (assembleCalls coll ms)).map headName).Nodup :=
+  C15prom_unique_iff _
+
+/-- **Two components of one type always repeat the header lines** (two mqtt targets: each appends
+    `mqtt_target_connection_established` …), whatever their names and states, wherever they sit in the collection
+    order — the listed finding `prometheus:duplicate-help-type-lines`, across sources. The repaired `Target`
+    (one block per metric name) never does. -/
+theorem assemble_same_type_twice (pre mid post : List Source) (u1 u2 : Str) (r1 r2 : MqttRec) (ms : Str) :
+    ¬ UniqueMeta (linesOf (assembleCalls (pre ++ mqttSource u1 r1 :: (mid ++ mqttSource u2 r2 :: post)) ms)) ∧
+    UniqueMeta (groupLines (assembleCalls (pre ++ mqttSource u1 r1 :: (mid ++ mqttSource u2 r2 :: post)) ms)) := by
+  refine ⟨?_, C15prom_unique_repaired _⟩
+  rw [assemble_unique_iff]
+  intro hn
+  have hmem : ∀ (u : Str) (r : MqttRec), fullName mEstablished none ∈ (liveCalls (mqttCalls u r)).map headName := by
+    intro u r
+    rw [mqtt_live]
+    simp [mqttCalls, headName_simple]
+  have e : ∀ c, assembleCalls c ms = c.flatMap (fun s => s.calls s.name) ++ [assembleCall ms] := fun _ => rfl
+  rw [e, liveCalls_append, liveCalls_flatMap] at hn
+  simp only [List.flatMap_append, List.flatMap_cons, List.map_append, mqttSource] at hn
+  have h1 := hmem u1 r1
+  have h2 := hmem u2 r2
+  -- the name occurs in the block of the first target and again in the block of the second
+  have a := (List.nodup_append.mp hn).1
+  have b := (List.nodup_append.mp a).2.1
+  have c := (List.nodup_append.mp b).2.2
+  exact c _ h1 _ (by simp only [List.mem_append]; right; left; exact h2) rfl
+
+example : ¬ UniqueMeta (linesOf (assembleCalls ([] ++ mqttSource ['a'] MqttRec.zero :: ([] ++ mqttSource ['b'] MqttRec.zero :: [])) ['0'])) :=
+  (assemble_same_type_twice [] [] [] _ _ _ _ _).1
+
+/-! ### `Collection::register`: the order of the sources -/
+
+theorem strLe_total (a b : Str) : strLe a b = true ∨ strLe b a = true := by
+  induction a generalizing b with
+  | nil => left; cases b <;> rfl
+  | cons x a ih =>
+    cases b with
+    | nil => right; rfl
+    | cons y b =>
+      simp only [strLe]
+      by_cases h1 : x.toNat < y.toNat
+      · left; simp [h1]
+      · by_cases h2 : y.toNat < x.toNat
+        · right; simp [h2]
+        · simp only [h1, h2, if_false]; exact ih b
+
+theorem strLe_trans (a b c : Str) (h1 : strLe a b = true) (h2 : strLe b c = true) : strLe a c = true := by
+  induction a generalizing b c with
+  | nil => cases c <;> rfl
+  | cons x a ih =>
+    cases b with
+    | nil => simp [strLe] at h1
+    | cons y b =>
+      cases c with
+      | nil => simp [strLe] at h2
+      | cons z c =>
+        simp only [strLe] at h1 h2 ⊢
+        by_cases xy : x.toNat < y.toNat
+        · by_cases yz : y.toNat < z.toNat
+          · have : x.toNat < z.toNat := by omega
+            simp [this]
+          · by_cases zy : z.toNat < y.toNat
+            · simp [yz, zy] at h2
+            · have : x.toNat < z.toNat := by omega
+              simp [this]
+        · by_cases yx : y.toNat < x.toNat
+          · simp [xy, yx] at h1
+          · simp only [xy, yx, if_false] at h1
+            by_cases yz : y.toNat < z.toNat
+            · have : x.toNat < z.toNat := by omega
+              simp [this]
+            · by_cases zy : z.toNat < y.toNat
+              · simp [yz, zy] at h2
+              · simp only [yz, zy, if_false] at h2
+                have e1 : ¬ x.toNat < z.toNat := by omega
+                have e2 : ¬ z.toNat < x.toNat := by omega
+                simp only [e1, e2, if_false]
+                exact ih b c h1 h2
+
+def SortedByName (l : List Source) : Prop := l.Pairwise (fun a b => strLe a.name b.name = true)
+
+theorem register_mem (s : Source) (l : List Source) (x : Source) : x ∈ register s l ↔ x = s ∨ x ∈ l := by
+  induction l with
+  | nil => simp [register]
+  | cons y l ih =>
+    simp only [register]
+    split
+    · simp only [List.mem_cons, ih]
+      constructor
+      · rintro (h | h | h) <;> simp [h]
+      · rintro (h | h | h) <;> simp [h]
+    · simp [List.mem_cons]
+
+/-- `register` keeps the collection sorted by component name. -/
+theorem register_sorted (s : Source) (l : List Source) (h : SortedByName l) : SortedByName (register s l) := by
+  induction l with
+  | nil => simp [register, SortedByName]
+  | cons y l ih =>
+    have hy := List.pairwise_cons.mp h
+    simp only [register]
+    split
+    · rename_i hle
+      refine List.pairwise_cons.mpr ⟨?_, ih hy.2⟩
+      intro x hx
+      rcases (register_mem s l x).mp hx with rfl | hx
+      · exact hle
+      · exact hy.1 x hx
+    · rename_i hle
+      have hsy : strLe s.name y.name = true := by
+        rcases strLe_total s.name y.name with h | h
+        · exact h
+        · exact absurd h hle
+      refine List.pairwise_cons.mpr ⟨?_, h⟩
+      intro x hx
+      rcases List.mem_cons.mp hx with rfl | hx
+      · exact hsy
+      · exact strLe_trans _ _ _ hsy (hy.1 x hx)
+
+theorem register_perm (s : Source) (l : List Source) : (register s l).Perm (s :: l) := by
+  induction l with
+  | nil => simp [register]
+  | cons y l ih =>
+    simp only [register]
+    split
+    · exact ((List.Perm.cons y ih).trans (List.Perm.swap s y l))
+    · exact List.Perm.refl _
+
+theorem foldl_register (ss acc : List Source) (h : SortedByName acc) :
+    SortedByName (ss.foldl (fun a s => register s a) acc) ∧ (ss.foldl (fun a s => register s a) acc).Perm (acc ++ ss) := by
+  induction ss generalizing acc with
+  | nil => simpa using h
+  | cons s ss ih =>
+    simp only [List.foldl_cons]
+    obtain ⟨a, b⟩ := ih (register s acc) (register_sorted s acc h)
+    refine ⟨a, b.trans ?_⟩
+    exact ((register_perm s acc).append_right ss).trans List.perm_middle.symm
+
+/-- **The collection's order**: whatever the registration order, the sources are held sorted by component name, and
+    they are exactly the registered ones. (Equal names keep their registration order: pinned by the correspondence,
+    the BMP unit registers three sources under one name.) -/
+theorem registerAll_sorted_perm (ss : List Source) : SortedByName (registerAll ss) ∧ (registerAll ss).Perm ss := by
+  have := foldl_register ss [] List.Pairwise.nil
+  simpa [registerAll] using this
+
+example : (registerAll [mqttSource ['z'] MqttRec.zero, mqttSource ['a'] MqttRec.zero, mqttSource ['m'] MqttRec.zero]).map
+    (·.name) = [['a'], ['m'], ['z']] := by decide
+
+
 end Rotonda.UnitMetrics
